@@ -90,7 +90,7 @@ def gen(S, tier):
         "skew": c.chance(0.12),
         # section outputs count screen rows: sometimes the terminal is exactly as wide as the frame
         "exact_columns": c.chance(0.3),
-        "real_stream": c.chance(0.25),
+        "real_stream": c.chance(0.25), "indent": c.pick([0, 0, 0, 0, 2, 4]),
         "term_env": c.weighted([(None, 6), ({"tty_fds": [2], "ctty": False}, 2), ({"tty_fds": [0, 1, 2], "ctty": True}, 1),
                                 ({"tty_fds": [], "ctty": True}, 1), ({"tty_fds": [1], "ctty": False}, 1)]),
     }
@@ -145,7 +145,7 @@ def simplify(sc):
     simple = {"verbosity": 0, "bar_width": None, "bar_char": None, "empty_char": "-",
               "progress_char": ">", "redraw_freq": None, "max_interval": None,
               "min_interval_setter": None, "sentinels": 0, "sections_above": 0,
-              "sections_below": 0, "skew": False, "plain_formatter": False, "min_interval": 0, "real_stream": False, "term_env": None}
+              "sections_below": 0, "skew": False, "plain_formatter": False, "min_interval": 0, "real_stream": False, "term_env": None, "indent": 0}
     for k, v in simple.items():
         if cfg.get(k) != v:
             c = dict(sc)
@@ -317,6 +317,11 @@ def _run(sc, cfg, res, clock, log, columns=200):
                 s.write_line("below-%d second line" % i)
             below.append(s)
 
+    if cfg.get("indent") and kind in ("ansi", "plain") and "\n" not in (cfg["format"] or ""):
+        # the bar is driven inside an indentation scope of its output (`with io.indent(n): ...`)
+        out.indent(cfg["indent"]).__enter__()
+        screen.view_indent = cfg["indent"]
+        res.probe("inside_indentation_scope")
     if kind == "quiet" and cfg.get("exact_columns"):
         # a quiet *section* output (quiet mode is inherited from the parent output)
         target = out.section()
@@ -471,6 +476,7 @@ def _run(sc, cfg, res, clock, log, columns=200):
                 frame_lines = [vis(x).rstrip() for x in body.split("\n")]
             else:
                 iso = Screen(200)
+                iso.view_indent = screen.view_indent
                 iso.feed(data)
                 frame_lines = [r.rstrip() for r in iso.text_rows()]
                 if kind == "plain" and len(frame_lines) == nlines + 1 and frame_lines[0] == "":
